@@ -237,6 +237,7 @@ fn cmd_run(args: &[String]) -> i32 {
             "probes": probes,
             "samples": samples,
             "violations": violations,
+                "violating_runs": violating_runs,
             "stopped_by_time": stopped_by_time,
             "wall_s": start.elapsed().as_secs_f64(),
         });
